@@ -582,6 +582,13 @@ impl<S: Syntax, D> SyntaxNode<S, D> {
         self.data().children.len()
     }
 
+    /// Verification hook: the index of this node among the children of its parent.
+    #[cfg(cstree_verif)]
+    #[doc(hidden)]
+    pub fn verif_index(&self) -> Option<u32> {
+        self.data().kind.as_child().map(|(_, index, _)| index)
+    }
+
     /// Returns an iterator along the chain of parents of this node.
     #[inline]
     pub fn ancestors(&self) -> impl Iterator<Item = &SyntaxNode<S, D>> {
